@@ -137,6 +137,7 @@ def assemble(unit_path, variant=None):
     def flush_groups():
         if pending_groups:
             A.emit("broadcast use {" + ", ".join(pending_groups) + "};", "prelude", "broadcast groups")
+            A.groups = list(pending_groups)
             A.emit("pub mod cosmwasm_std { pub use crate::*; }\npub mod cw20 { pub use crate::*; }\npub mod white_whale_std { pub use crate::*; pub mod pool_network { pub use crate::*; pub mod asset { pub use crate::*; } } }", "prelude", "path aliases")
             pending_groups.clear()
 
@@ -224,7 +225,11 @@ def assemble(unit_path, variant=None):
                 flush()
         elif d == "mod":
             close_section(); flush()
-            A.emit(f"pub mod {rest} {{\nuse super::*;\n" + (("use super::{" + ", ".join(getattr(A, "exported", [])) + "};\n") if getattr(A, "exported", []) else "") + IMPORTS, "raw", os.path.basename(unit_path))
+            mpos, mkv = parse_kv(rest)
+            hide = set((mkv.get("hide") or "").split(","))
+            exp = [n for n in getattr(A, "exported", []) if n not in hide]
+            A.emit(f"pub mod {mpos[0]} {{\nuse super::*;\n" + (("use super::{" + ", ".join(exp) + "};\n") if exp else "") + IMPORTS
+                   + ("broadcast use {" + ", ".join("super::" + g for g in getattr(A, "groups", [])) + "};\n" if getattr(A, "groups", []) else ""), "raw", os.path.basename(unit_path))
         elif d == "endmod":
             close_section(); flush()
             A.emit("}\npub use " + rest + "::*;", "raw", os.path.basename(unit_path))
